@@ -144,8 +144,11 @@ func (a AST) Format(opts FormatOptions) string {
 	if len(a.Comments) > 0 {
 		var leading, trailing []string
 		for _, c := range a.Comments {
-			if c.Inline {
-				// Inline comments (on same line as code) → trailing
+			if c.Inline && (len(trailing) == 0 || !isLineCommentText(trailing[len(trailing)-1])) {
+				// Inline comments (on same line as code) → trailing. Nothing can
+				// follow a line comment on its line, so a comment that would have
+				// to is placed with the leading ones (where re-formatting the
+				// output puts it as well: the result is a fixed point).
 				trailing = append(trailing, c.Text)
 			} else {
 				// Comments on their own line → leading
@@ -166,6 +169,11 @@ func (a AST) Format(opts FormatOptions) string {
 	}
 
 	return result
+}
+
+// isLineCommentText reports whether a captured comment is a line comment (-- or #).
+func isLineCommentText(c string) bool {
+	return strings.HasPrefix(c, "--") || strings.HasPrefix(c, "#")
 }
 
 // Format returns formatted SQL for a SelectStatement.
